@@ -41,6 +41,9 @@ MCInit == /\ \E f \in 0..B : /\ buf = Fill(120, f) /\ hist = Fill(120, f)
 MCNext == \/ /\ steps < MaxSteps
              /\ \E op \in AllOps : \E a \in Args(op) : ImplWrite(op, a)
              /\ steps' = steps + 1
+          \/ /\ steps < MaxSteps            \* the output rejects the pre-flush of a call (non-string operations)
+             /\ \E op \in AllOps \ StrOps : \E a \in Args(op) : ImplWriteFault(op, a)
+             /\ steps' = steps + 1
           \/ /\ steps \in 1..MaxSteps
              /\ ImplFlush
              /\ steps' = MaxSteps + 1
